@@ -45,4 +45,35 @@ theorem intersect_noWrap (a b : Rect Int64) (ha : a.Half) (hb : b.Half) : (a.int
   rw [ex, ey, ew, eh]
   exact intersect_int_range a.toInt b.toInt ha hb
 
+theorem union_int_range (A B : Rect Int)
+    (hA : (-2 ^ 62 ≤ A.x ∧ A.x < 2 ^ 62) ∧ (-2 ^ 62 ≤ A.y ∧ A.y < 2 ^ 62) ∧
+      (-2 ^ 62 ≤ A.x + A.w ∧ A.x + A.w < 2 ^ 62) ∧ (-2 ^ 62 ≤ A.y + A.h ∧ A.y + A.h < 2 ^ 62))
+    (hB : (-2 ^ 62 ≤ B.x ∧ B.x < 2 ^ 62) ∧ (-2 ^ 62 ≤ B.y ∧ B.y < 2 ^ 62) ∧
+      (-2 ^ 62 ≤ B.x + B.w ∧ B.x + B.w < 2 ^ 62) ∧ (-2 ^ 62 ≤ B.y + B.h ∧ B.y + B.h < 2 ^ 62)) :
+    -2 ^ 63 ≤ (A.union B).x + (A.union B).w ∧ (A.union B).x + (A.union B).w < 2 ^ 63 ∧
+    -2 ^ 63 ≤ (A.union B).y + (A.union B).h ∧ (A.union B).y + (A.union B).h < 2 ^ 63 := by
+  obtain ⟨⟨a1, a2⟩, ⟨a3, a4⟩, ⟨a5, a6⟩, ⟨a7, a8⟩⟩ := hA
+  obtain ⟨⟨b1, b2⟩, ⟨b3, b4⟩, ⟨b5, b6⟩, ⟨b7, b8⟩⟩ := hB
+  rw [Rect.union_eq]
+  by_cases h1 : A.Empty ∧ B.Empty
+  · rw [if_pos h1]; dsimp only [Rect.zero]; omega
+  · rw [if_neg h1]
+    by_cases h2 : A.Empty
+    · rw [if_pos h2]; omega
+    · rw [if_neg h2]
+      by_cases h3 : B.Empty
+      · rw [if_pos h3]; omega
+      · rw [if_neg h3]; dsimp only [Rect.right, Rect.bottom]; omega
+
+/-- the union of two `Half` rectangles does not wrap -/
+theorem union_noWrap (a b : Rect Int64) (ha : a.Half) (hb : b.Half) : (a.union b).NoWrap := by
+  have e := union_toInt a b ha hb
+  have ex : (a.union b).x.toInt = (a.toInt.union b.toInt).x := by rw [← e]; rfl
+  have ey : (a.union b).y.toInt = (a.toInt.union b.toInt).y := by rw [← e]; rfl
+  have ew : (a.union b).w.toInt = (a.toInt.union b.toInt).w := by rw [← e]; rfl
+  have eh : (a.union b).h.toInt = (a.toInt.union b.toInt).h := by rw [← e]; rfl
+  unfold Rect.NoWrap
+  rw [ex, ey, ew, eh]
+  exact union_int_range a.toInt b.toInt ha hb
+
 end Geom
